@@ -186,6 +186,47 @@ theorem C03_checkLines_partial (data name : Bytes) (ctx : Nat) (ms : List Cand) 
     have := h2 lm hlm
     simp [this.1, this.2.1, this.2.2]
 
+/-- the tie to C02: whatever the atoms' (in-bounds) matches are, the output of `gatherMatches` satisfies the
+    preconditions (`Gathered`) under which the theorems of this file are stated -/
+theorem gather_output_gathered (data name : Bytes) (cands : List Cand)
+    (hb : ∀ c ∈ cands, c.off + c.sz ≤ (if c.fileName then name.length else data.length)) :
+    Gathered data name (C02.gatherCands name cands) := gathered_of_gather data name cands hb
+
+theorem gather_subset (name : Bytes) (cands : List Cand) :
+    ∀ c ∈ C02.gatherCands name cands, c ∈ cands ∨ c.fileName = true := by
+  intro c hc
+  by_cases hne : cands = []
+  · subst hne
+    simp only [C02.gatherCands, List.length_nil, if_true, List.mem_singleton] at hc
+    subst hc; exact Or.inr rfl
+  · have hlen : ¬ cands.length = 0 := by simpa using hne
+    simp only [C02.gatherCands, hlen, if_false] at hc
+    exact Or.inl (C02.mem_sortCands.mp ((C02.overlapFilter_sublist _).subset hc))
+
+/-- **C03, chunk mode, end to end over the reporting pipeline** `gatherMatches → fillChunkMatches`: for every document,
+    name, context size and every collection of in-bounds atom matches whose content matches are rune-aligned, the chunk
+    matches the search reports satisfy the whole chunk half of the statement. -/
+theorem C03_search_chunks (data name : Bytes) (ctx : Nat) (cands : List Cand)
+    (hb : ∀ c ∈ cands, c.off + c.sz ≤ (if c.fileName then name.length else data.length))
+    (hal : ∀ c ∈ cands, c.fileName = false → IsBoundary data c.off ∧ IsBoundary data (c.off + c.sz)) :
+    checkChunks data name (C02.reportChunks data name ctx cands) = true := by
+  unfold C02.reportChunks
+  apply C03_checkChunks data name ctx _ (gathered_of_gather data name cands hb)
+  intro c hc
+  simp only [List.mem_filter, Bool.not_eq_true'] at hc
+  rcases gather_subset name cands c hc.1 with h | h
+  · exact hal c h hc.2
+  · rw [hc.2] at h; exact absurd h (by decide)
+
+/-- **C03, line mode, end to end over the reporting pipeline** `gatherMatches → fillMatches` (without the two
+    line-count clauses of the context) -/
+theorem C03_search_lines_partial (data name : Bytes) (ctx : Nat) (cands : List Cand)
+    (hb : ∀ c ∈ cands, c.off + c.sz ≤ (if c.fileName then name.length else data.length)) :
+    ∃ lms, C02.reportLines data name ctx cands = some lms ∧
+      ∀ lm ∈ lms, if lm.fileName then fileNameLineOk name lm = true
+                  else (lineCoreOk data lm = true ∧ lineContextOk data ctx lm = true) :=
+  C03_checkLines_partial data name ctx _ (gathered_of_gather data name cands hb)
+
 /-! non-vacuity: "ab\ncd\n" with a file-name candidate, a candidate on line 1 and one spanning the newline -/
 def exData : Bytes := [97, 98, 10, 99, 100, 10]
 def exName : Bytes := [102, 46, 103, 111]
